@@ -20,16 +20,16 @@ from datetime import datetime, timezone, timedelta
 from .common import Driver, Batch, load_repo
 
 PINNED = {
-    'KeyAction.usage': '',
-    'KeyAction.check_attributes': '',
-    'KeyAction.__call__': '',
-    'PGPKey._get_key_flags': '',
-    'PGPKey.self_signatures': '',
-    'PGPKey.get_uid': '',
-    'PGPKey.is_public': '',
-    'PGPKey.is_protected': '',
-    'PGPKey.is_unlocked': '',
-    'PGPUID.selfsig': '',
+    'KeyAction.usage': '16a7e9cd1f721410',
+    'KeyAction.check_attributes': '5bc1ee5f304ffbd0',
+    'KeyAction.__call__': '4c949a55df3a3092',
+    'PGPKey._get_key_flags': 'dc9a988c0f8dba20',
+    'PGPKey.self_signatures': '818818841fb94aad',
+    'PGPKey.get_uid': '02f8faf42768e92d',
+    'PGPKey.is_public': 'ec42575bc2494da7',
+    'PGPKey.is_protected': '487fd21efa346bd6',
+    'PGPKey.is_unlocked': 'ab5c0e24e60a8fc7',
+    'PGPUID.selfsig': '111019c3241e9c1e',
 }
 DECORATORS = {
     'sign': '@KeyAction(KeyFlags.Sign, is_unlocked=True, is_public=False)',
@@ -68,6 +68,27 @@ def check_pins(ctx, pgpy):
         got = inspect.getsource(getattr(pgpy.PGPKey, m)).splitlines()[0].strip()
         if got != want:
             ctx.broken.append('decorator of PGPKey.%s changed: %r (operation table of Model/Policy.v says %r)' % (m, got, want))
+
+
+class RsaMemo:
+    """cryptography re-validates an RSA private key (primality checks, ~6 ms for 1024 bits) every time PGPy turns its numbers into a
+    key object, i.e. on every signature / decryption.  The conversion is a pure function of the numbers: memoise it for the run."""
+
+    def __enter__(self):
+        from cryptography.hazmat.primitives.asymmetric import rsa
+        self.rsa, self.orig, memo = rsa, rsa.RSAPrivateNumbers.private_key, {}
+        orig = self.orig
+
+        def private_key(numbers, *a, **k):
+            key = (numbers.p, numbers.q, numbers.d, numbers.public_numbers.e, numbers.public_numbers.n)
+            if key not in memo:
+                memo[key] = orig(numbers, *a, **k)
+            return memo[key]
+        rsa.RSAPrivateNumbers.private_key = private_key
+        return self
+
+    def __exit__(self, *exc):
+        self.rsa.RSAPrivateNumbers.private_key = self.orig
 
 
 class LogTap(logging.Handler):
@@ -127,11 +148,11 @@ class World:
             self.fprs = [str(c.fingerprint) for c in comps(m)]
             # messages addressed to each component (made with enforcement off so that flags do not matter)
             self.enc = []
+            raw_encrypt = PGPKey.encrypt.__wrapped__          # below the decorator: encrypt to exactly this component
+            self.raw_encrypt = raw_encrypt
             for c in comps(m.pubkey):
-                c._require_usage_flags = False
-                self.enc.append(c.encrypt(PGPMessage.new('secret %s' % str(c.fingerprint)[-8:]), cipher=S.AES128))
-                c._require_usage_flags = True
-            self.enc_foreign = f.pubkey.encrypt(PGPMessage.new('not for you'), cipher=S.AES128)
+                self.enc.append(raw_encrypt(c, PGPMessage.new('secret %s' % str(c.fingerprint)[-8:]), cipher=S.AES128))
+            self.enc_foreign = raw_encrypt(f.pubkey, PGPMessage.new('not for you'), cipher=S.AES128)
             self.tap.records.clear()
         self.sigcache = {}
 
@@ -180,7 +201,7 @@ class World:
         with warnings.catch_warnings():
             warnings.simplefilter('ignore')
             k, others = self.PGPKey.from_blob(bytes(blob))
-        assert not others
+        assert len(others) <= 1
         return k
 
 
@@ -238,13 +259,21 @@ def do_op(w, k, op, user, comps_ids=None):
             elif op == 'revoker':
                 r = k.revoker(w.foreign.pubkey, created=T(40), hash=w.H.SHA256); named = r.signer
             elif op == 'bind':
-                r = k.bind(w.spare_sub, usage={w.KeyFlags.Authentication}, created=T(40), hash=w.H.SHA256); named = r.signer
+                # bind() hashes the subkey together with its primary and cross-signs: the target must be registered as a child.
+                # A spare private subkey is attached for the duration of the call (bind carries no usage flags, so no scan sees it).
+                sp = w.spare_sub
+                sid = str(sp.fingerprint)[-16:]
+                k._children[sid] = sp; sp._parent = k
+                try:
+                    r = k.bind(sp, usage={w.KeyFlags.Authentication}, created=T(40), hash=w.H.SHA256); named = r.signer
+                finally:
+                    del k._children[sid]; sp._parent = w.foreign
             elif op == 'encrypt':
                 r = k.encrypt(w.PGPMessage.new('to be encrypted'), **kw)
                 e = list(r.encrypters)
                 named = e[0] if len(e) == 1 else None
             elif op == 'decrypt':
-                r = k.decrypt(w.enc[0] if k.is_primary else w.enc[w.keyids.index(ids[0])])
+                r = k.decrypt(w.enc[w.keyids.index(ids[0])] if ids[0] in w.keyids else w.enc[0])
                 named = ids[0]
             else:
                 raise ValueError(op)
@@ -262,8 +291,6 @@ def names_used_key(w, k, op, out, r, ids):
     if not out.startswith('run:') or '?' in out:
         return None if not out.startswith('run:') else 'output names a key that is not a component of the receiver'
     idx = int(out.split(':')[1])
-    pubm = w.master.pubkey
-    comp = ([pubm] + list(pubm.subkeys.values()))[w.keyids.index(ids[idx])]
     with warnings.catch_warnings():
         warnings.simplefilter('ignore')
         if op in ('sign', 'certify', 'revoke', 'revoker', 'bind'):
@@ -321,6 +348,11 @@ class Runner:
         self.toks = {}
         self.bt = Batch(ctx, d, 'policy', 'outcome of the operation differs from the model')
 
+    def set_suite(self, suite):
+        if self.bt.suite != suite:
+            self.bt.flush()
+            self.bt.suite = suite
+
     def tok(self, s):
         return self.toks.setdefault(s, len(self.toks) + 0x61)
 
@@ -334,8 +366,7 @@ class Runner:
         out, r = do_op(w, k, op, user, ids)
         desc = describe(w, k, form, enforce, self.tok)
         ut = '-' if user is None else '%x' % self.tok(user)
-        self.bt.what = 'outcome of the operation differs from the model'
-        self.bt.suite = suite
+        self.set_suite(suite)
         self.bt.add('perform %s %s %s' % (desc, op, ut), out, case)
         ctx.case(suite, (suite, desc, op, ut), nontrivial=out.startswith('run:'), sample=dict(case, impl=out))
         if flags is not None:
@@ -457,7 +488,8 @@ def rebind_live(ctx, run, suite, count):
     for n in range(count):
         pf = rng.choice([AUTH, 0, CERTIFY])
         first = rng.choice(fam)
-        k = w.assemble('private', [[0, [[pf, 0]]]], [[[first, 0]], [[rng.choice(fam), 0]]])
+        sf2 = rng.choice(fam)
+        k = w.assemble('private', [[0, [[pf, 0]]]], [[[first, 0]], [[sf2, 0]]])
         sk = list(k.subkeys.values())[0]
         hist = [first]
         for step in range(3):
@@ -467,17 +499,17 @@ def rebind_live(ctx, run, suite, count):
                 b = k.bind(sk, usage=w.fset(nf), created=T(10 + step))
             sk |= b
             hist.append(nf)
-            second = World.mask(list(k.subkeys.values())[1]._get_key_flags())
-            flags = [CERTIFY | pf, nf, second]
+            flags = [CERTIFY | pf, nf, sf2]
             for op in ('sign', 'encrypt'):
                 case = {'suite': suite, 'pf': pf, 'hist': list(hist), 'op': op}
                 form = 'private' if op == 'sign' else 'public'
                 kk = k if op == 'sign' else k.pubkey
                 if op == 'encrypt':
-                    # the public half shares the subkey objects' signatures only after a re-export; rebuild it from the bytes
+                    # the public half is derived from a re-import of the exported private key
                     with warnings.catch_warnings():
                         warnings.simplefilter('ignore')
-                        kk, _ = w.PGPKey.from_blob(bytes(k.pubkey))
+                        kk, _ = w.PGPKey.from_blob(bytes(k))
+                        kk = kk.pubkey
                 run.one(suite, kk, form, True, op, None, case, flags=flags, verify=True)
     run.bt.flush()
 
@@ -491,7 +523,7 @@ def special_receivers(ctx, run, suite):
     for op in OPS:
         out, _ = do_op(w, e, op, None, ['-'])
         ctx.case(suite, ('empty', op), nontrivial=False)
-        bt.suite = suite
+        run.set_suite(suite)
         bt.add('perform 010001 _ - _ %s -' % op, out, {'suite': suite, 'kind': 'empty', 'op': op})
         if out != 'nokey':
             ctx.fail(suite, 'an empty PGPKey did not refuse', {'suite': suite, 'kind': 'empty', 'op': op, 'impl': out})
@@ -552,7 +584,7 @@ def special_receivers(ctx, run, suite):
     k = w.assemble('private', [[0, [[AUTH, 0]]]], [[], [[SIGN, 0]]])
     for op in ('sign', 'encrypt', 'decrypt'):
         case = {'suite': suite, 'kind': 'unbound-subkey', 'op': op}
-        kk = k if op != 'encrypt' else k.pubkey
+        kk = k if op != 'encrypt' else w.assemble('public', [[0, [[AUTH, 0]]]], [[], [[SIGN, 0]]])
         run.one(suite, kk, 'private' if op != 'encrypt' else 'public', True, op, None, case)
     bt.flush()
 
@@ -568,10 +600,8 @@ def decrypt_routing(ctx, run, suite):
         warnings.simplefilter('ignore')
         sk = S.AES128.gen_key()
         for a, b in ((1, 2), (2, 3), (0, 2)):
-            for c in pcomps: c._require_usage_flags = False
-            m = pcomps[a].encrypt(w.PGPMessage.new('secret for two'), sessionkey=sk, cipher=S.AES128)
-            m = pcomps[b].encrypt(m, sessionkey=sk, cipher=S.AES128)
-            for c in pcomps: c._require_usage_flags = True
+            m = w.raw_encrypt(pcomps[a], w.PGPMessage.new('secret for two'), sessionkey=sk, cipher=S.AES128)
+            m = w.raw_encrypt(pcomps[b], m, sessionkey=sk, cipher=S.AES128)
             msgs.append(('to-%d-%d' % (a, b), [a, b], m))
     msgs.append(('to-stranger', [], w.enc_foreign))
     for nsub in range(0, 4):
@@ -608,7 +638,7 @@ def decrypt_routing(ctx, run, suite):
                     if form in ('private', 'unlocked'):
                         exp = 'ok' if route != 'cannot' else 'cannot'
                         ctx.expect_eq(suite, 'decrypt routing differs from the model', dict(case, route=route), out, exp)
-                        if route.startswith('sub:') and not set(route[4:].split(',')) <= set(enc) & set(ids[1:]):
+                        if route.startswith('sub:') and not {int(x, 16) for x in route[4:].split(',')} <= {int(x, 16) for x in set(enc) & set(ids[1:])}:
                             ctx.fail(suite, 'model routes to a subkey that is not addressed', dict(case, route=route))
             run.with_form(form, k, body)
 
@@ -671,7 +701,8 @@ def run(ctx):
     check_pins(ctx, pgpy)
     d = Driver('c16')
     try:
-        _run(ctx, pgpy, d)
+        with RsaMemo():
+            _run(ctx, pgpy, d)
     finally:
         d.close()
         for h in list(logging.getLogger().handlers):
@@ -688,6 +719,8 @@ def replay(ctx, case):
         w = World(pgpy, ctx.rng)
         run = Runner(ctx, w, d)
         before = len(ctx.violations)
+        for h in list(logging.getLogger().handlers[:-1]):
+            if isinstance(h, LogTap): logging.getLogger().removeHandler(h)
         if 'uids' in case and 'subs' in case and 'op' in case:
             import random
             form = case.get('form', 'private')
